@@ -120,7 +120,7 @@ fn build(world: &Arc<World>, c: usize, spec: CallSpec) -> Option<(Fut, serde_jso
         CallSpec::CreateSub { name, topic, ack, push } => {
             let sname = SubscriptionName::try_parse(&name)?;
             let tname = TopicName::try_parse(&topic)?;
-            let inv = json!({"c": c, "op": "CreateSub", "name": name, "topic": topic, "ack": ack, "push": push.clone().unwrap_or_default(), "lib": true});
+            let inv = json!({"c": c, "op": "CreateSub", "name": name, "topic": topic, "ack": ack, "push": push.clone().unwrap_or_default(), "push_http": true, "lib": true});
             Some((
                 Box::pin(async move {
                     match w.topics.get_topic(&tname) {
